@@ -287,3 +287,87 @@ Theorem c14_translated_built_term_renders :
    d <- svg_doc (svg_tf_term t) input ;;
    Some (svg_print (svg_width_px (svg_tf_oracle uw ceil84 t) (svg_split_lines styled)) uw d)).
 Proof. exact translated_built_term_renders. Qed.
+
+(* ---- third-party unicode-width, TRANSLATED (tools/gen_fn_unicodewidth.py -> Generated/UnicodeWidthFn.v): the width
+   oracle of the svg model is the translated `<str as UnicodeWidthStr>::width` ---- *)
+From AV Require Import Model.UnicodeWidth Generated.UnicodeWidthFn Proofs.UnicodeWidthGen Model.SvgWidth Proofs.SvgWidthGen.
+
+(* no panic: every index into WIDTH_ROOT / WIDTH_MIDDLE / WIDTH_LEAVES / EMOJI_PRESENTATION_LEAVES is in bounds, for
+   every code point below 2^21 (a char is below 0x110000) and every state of the look-ahead machine *)
+Theorem c14_translated_unicodewidth_lookup_in_bounds :
+  forall c, c < 2097152 -> exists r, g_uw_lookup_width c = Some r.
+Proof. exact g_uw_lookup_width_total. Qed.
+
+Theorem c14_translated_unicodewidth_step_total :
+  forall c info, c < 2097152 -> exists r, g_uw_width_in_str c info = Some r.
+Proof. exact g_uw_width_in_str_total. Qed.
+
+Theorem c14_translated_unicodewidth_total :
+  forall s, Forall (fun c => c < 2097152) s -> exists n, g_uw_str_trait_width s = Some n.
+Proof. exact g_uw_str_trait_width_total. Qed.
+
+(* the lists handed to binary_search_by are sorted (disjoint increasing ranges), and on the one-byte lists the
+   bisection of Model/UnicodeWidth.v finds a range iff there is one *)
+Theorem c14_translated_unicodewidth_tables_sorted :
+  forallb (uw_sorted_ranges None) uw_leaves8 = true /\ uw_sorted_ranges None uw_ranges24 = true.
+Proof. exact uw_tables_sorted. Qed.
+
+Theorem c14_translated_unicodewidth_bsearch_is_scan :
+  forall t b, In t uw_leaves8 -> b < 256 ->
+  uw_res_is_ok (uw_binary_search_by (uw_cmp_range b) t) = uw_in_ranges b t.
+Proof. exact uw_bsearch8_is_scan. Qed.
+
+(* printable ASCII: one column per character (strings and single characters); CR LF is one column *)
+Theorem c14_translated_unicodewidth_ascii :
+  forall s, Forall (fun c => 32 <= c /\ c < 127) s -> N.of_nat (length s) < 18446744073709551616 ->
+  g_uw_str_width s = Some (N.of_nat (length s)).
+Proof. exact g_uw_str_width_ascii. Qed.
+
+Theorem c14_translated_unicodewidth_char_ascii :
+  forall c, 32 <= c /\ c < 127 -> g_uw_single_char_width c = Some (Some 1).
+Proof. exact g_uw_char_width_printable_ascii. Qed.
+
+Theorem c14_translated_unicodewidth_crlf :
+  g_uw_str_width [13; 10] = Some 1 /\ g_uw_str_width [10] = Some 1 /\ g_uw_str_width [13] = Some 1.
+Proof. exact g_uw_str_width_crlf. Qed.
+
+(* the oracle component svg_o_uw, instantiated: on a string of chars the Rust call answers uw_width, a usize *)
+Theorem c14_translated_unicodewidth_is_oracle :
+  forall ceil84 minw s, forallb uw_is_char s = true ->
+  g_uw_str_trait_width s = Some (svg_o_uw (svg_uw_oracle ceil84 minw) s).
+Proof. exact svg_oracle_uw_is_translated. Qed.
+
+Theorem c14_translated_unicodewidth_usize : forall s, uw_width s < 18446744073709551616.
+Proof. exact uw_width_lt. Qed.
+
+(* write_bg_span: the fill drawn behind a fragment is as wide as the (escaped) fragment *)
+Theorem c14_translated_unicodewidth_fill :
+  forall x, uw_width (repeat svg_fill_on (N.to_nat (uw_width x))) = uw_width x /\
+            uw_width (repeat svg_fill_off (N.to_nat (uw_width x))) = uw_width x.
+Proof. exact (fun x => conj (uw_width_fill_on x) (uw_width_fill_off x)). Qed.
+
+(* render_svg, translated, with the widths COMPUTED by the translated unicode-width: the only parameter left is the
+   f64 product `(x as f64 * 8.4).ceil() as usize` *)
+Theorem c14_translated_unicodewidth_render_svg :
+  forall ceil84 minw t input,
+  g_svg_render (mkSvgOracle uw_width ceil84 minw) t input =
+  (styled <- svg_styled t input ;;
+   d <- svg_doc t input ;;
+   Some (svg_print (svg_width_px (mkSvgOracle uw_width ceil84 minw) (svg_split_lines styled)) uw_width d)).
+Proof. exact translated_render_svg_uw. Qed.
+
+Theorem c14_translated_unicodewidth_built_term_renders :
+  forall ceil84 bs input,
+  let t := g_svg_build g_svg_term_new bs in
+  g_svg_render_full (svg_tf_oracle uw_width ceil84 t) t input =
+  (styled <- svg_styled (svg_tf_term t) input ;;
+   d <- svg_doc (svg_tf_term t) input ;;
+   Some (svg_print (svg_width_px (svg_tf_oracle uw_width ceil84 t) (svg_split_lines styled)) uw_width d)).
+Proof. exact translated_built_term_renders_uw. Qed.
+
+(* what `driver model` runs for case kind svgraw (no quantity is read off the real output any more) *)
+Theorem c14_translated_unicodewidth_driver_model :
+  forall palette fg bg background minw input,
+  g_svg_render (mkSvgOracle uw_width svg_ceil84_exact minw) (mkSvgTerm palette fg bg background) input =
+  svg_m_render_uw palette fg bg background minw input.
+Proof. exact translated_render_svg_is_driver_model. Qed.
